@@ -129,7 +129,8 @@ end
 
 def berrJson : BErr → Json
   | .cycle => mkObj [("err", .str "cycle")]
-  | .callFailed i p => mkObj [("err", .str "call"), ("node", jNat i), ("path", pathJson p)]
+  | .callFailed i p log => mkObj [("err", .str "call"), ("node", jNat i), ("path", pathJson p),
+      ("log", jArr (log.map jNat))]
   | .malformed => mkObj [("err", .str "malformed")]
   | .fuel => mkObj [("err", .str "fuel")]
 
